@@ -8,6 +8,27 @@ ROOT = os.path.dirname(os.path.dirname(os.path.abspath(__file__)))
 props = [json.loads(l) for l in open(os.path.join(ROOT, "properties.jsonl"))]
 
 CHECKS = {
+    "C06": dict(
+        text="Chunker.tla defines CutLen/Chunks; MCChunker.tla shows with TLC that the iterator's buffer algorithm refines it for "
+             "every stream <= 7 bytes, hit set, (min,max) and read fragmentation (and that the pre-fix carry behaviour does not). "
+             "Real chunk lists (cfg-gated iterator, 4 fragmentation/hint patterns, and full backups) for seeded streams x 10 "
+             "parameter triples x 3 polynomials are validated by ChunkerTrace.tla: partition, bounds, every cut = CutLen over hit "
+             "positions from a from-definition GF(2) reference, equality across fragmentations, locality, fixed-size cuts; "
+             "TLC recomputes sampled fingerprints from Rabin.tla.",
+        note="Hit positions come from the harness's bitwise GF(2) reference (tied to Rabin.tla on sampled windows only: a full "
+             "stream in TLC would take minutes per KiB). Deviation D1 (window right after the minimum size) is accepted.",
+        technique="TLC refinement check of the buffer algorithm + TLC trace validation of real chunk lists against the TLA+ cut function",
+        design="4/C06"),
+    "C18": dict(
+        text="ConfigGrid.tla generates the option grid (every single ConfigOptions field x boundary/huge values, every pair in the "
+             "chunker and pack-size groups); each point is applied to the real library at init and as a change, followed by a smoke "
+             "run (backup, check --read-data, read back, prune plan) under catch_unwind; a prune-limit grid runs prune. "
+             "ConfigTrace.tla evaluates Frame, NoDowngrade, Untouched, AcceptedWorks and NoPanic on the logged outcomes "
+             "(stored configuration read back with the independent decoder).",
+        note="Built with overflow checks (dev/test profile). The smoke source is one small tree; sequences of two changes are "
+             "covered only through the two base repositories.",
+        technique="TLC-generated option grid replayed on the real library + TLC evaluation of frame/acceptance formulas on the outcomes",
+        design="4/C18"),
     "C20": dict(
         text="Backend.tla models a back end as an exact map with the directory back end's temporary-file + atomic-publish "
              "write; TLC shows ListedComplete in every state incl. crashes inside a write (and that the naive design violates "
